@@ -161,8 +161,8 @@ def epoch_spec(prop, tier):
                 ep(3, ("pin2", "public"), 3, 300, 120)]
     if prop == "C16":
         if q:
-            return [ep(2, ("obs", "pin1"), 2), ep(2, (), 0, 60, 30, ("--histories", "5"), "sequential histories depth 5")]
-        return [ep(2, ("obs", "pin1", "pin2", "list1"), 3, 300, 120), ep(1, ("obs",), 4, 300, 120),
+            return [ep(2, ("obs", "pin1", "moves"), 2), ep(2, (), 0, 60, 30, ("--histories", "5"), "sequential histories depth 5")]
+        return [ep(2, ("obs", "pin1", "pin2", "list1", "moves"), 3, 300, 120), ep(1, ("obs", "moves"), 4, 300, 120),
                 ep(2, (), 0, 300, 60, ("--histories", "7"), "sequential histories depth 7")]
     if prop == "C17":
         if q:
